@@ -182,6 +182,9 @@ def invalid_cases():
             out += [f"{ys}-W53", f"{ys}-W53-1", f"{ys}W531", f"{ys}W53"]
         out += [f"{ys}-01-01T24:00:00", f"{ys}-01-01T23:60:00", f"{ys}-01-01T23:59:60", f"{ys}-01-01T99", f"{ys}0101T246060", f"{ys}-001T25:00"]
     out += ["T24", "T23:60", "T23:59:60", "24:00", "23:60:00", "0000-01-01", "0000-001", "0000-W01-1"]
+    # offsets of 24 h or more / minutes above 59
+    out += ["2021-06-15T12:30:15+24:00", "2021-06-15T12:30:15-2400", "2021-06-15T12:30:15+95:30", "2021-06-15T12:30:15+05:99", "20210615T123015+0560", "2021-06-15T12:30:15+24",
+            "12:30:15+24:00", "T12:30-99"]
     return out
 
 
